@@ -1,3 +1,3 @@
 Require Import ExtrOcamlBasic.
 From SharkV Require Import ListAux C09Derived.
-Extraction "c09d_model.ml" dinit dflip e_kernel e_reg e_mod d_row m_flip m_entry m_of p.
+Extraction "c09d_model.ml" dinit dflip e_kernel e_reg e_mod e_ex d_row m_flip m_entry m_of p.
